@@ -5,5 +5,5 @@ From MV Require Import Dir.PyLines.
 From MV Require Import Dir.DirModel.
 From MV Require Import Dir.Lines.
 Extraction Language OCaml.
-Extraction "model.ml" N.succ N.to_nat Z.of_nat print_seq locate_seq document_lines include_start include_start_old
+Extraction "model.ml" N.succ N.to_nat Z.of_nat print_seq locate_seq document_lines include_lines include_start include_start_old
   warning_line.
